@@ -22,7 +22,7 @@ noncomputable section
 theorem dlamdv_eq3 (p : SedovFuncsO3.P) (v : ℝ) (B : O3.Bases p v) :
     SedovFuncsO3.L1.dlamdv p v = SedovFuncsO3.L1.l_fun_dv p v := by
   obtain ⟨hs1, hs2, hs3, hs4⟩ := B
-  simp only [epv_deriv, epv_leaf]
+  simp only [epv_semi_deriv, epv_semi_leaf]
   have h1 := hs1.ne'; have h2 := hs2.ne'; have h3 := hs3.ne'
   have h4 : p.a_val ≠ 0 := left_ne_zero_of_mul h1
   have h5 : p.b_val ≠ 0 := left_ne_zero_of_mul h2
@@ -30,7 +30,7 @@ theorem dlamdv_eq3 (p : SedovFuncsO3.P) (v : ℝ) (B : O3.Bases p v) :
   ring
 
 theorem h_pos3 (p : SedovFuncsO3.P) (v : ℝ) (B : O3.Bases p v) : 0 < SedovFuncsO3.L1.h_fun p v := by
-  simp only [epv_leaf]
+  simp only [epv_semi_leaf]
   exact mul_pos (mul_pos (Real.rpow_pos_of_pos B.x1 _) (Real.rpow_pos_of_pos B.x4 _)) (Real.exp_pos _)
 
 theorem efun01_eq3 (p : SedovFuncsO3.P) (v : ℝ) (B : O3.Bases p v) (kn : ℕ) (hgeo : p.geometry = kn) (h1 : 1 ≤ kn) :
@@ -38,7 +38,7 @@ theorem efun01_eq3 (p : SedovFuncsO3.P) (v : ℝ) (B : O3.Bases p v) (kn : ℕ) 
       * psi1 (SedovFuncsO3.L1.l_fun p) (SedovFuncsO3.L1.l_fun_dv p) (SedovFuncsO3.L1.g_fun p) (fun v => p.a_val * v) kn v := by
   have he : SedovFuncsO3.L1.efun01 p v = SedovFuncsO3.L1.dlamdv p v * SedovFuncsO3.L1.l_fun p v ^ (p.geometry + 1) * p.gpogm
       * SedovFuncsO3.L1.g_fun p v * v ^ 2 := by
-    simp only [epv_leaf]
+    simp only [epv_semi_leaf]
   have hl := O3.l_pos p v B
   have ha : p.a_val ≠ 0 := left_ne_zero_of_mul B.x1.ne'
   have hpow : SedovFuncsO3.L1.l_fun p v ^ (p.geometry + 1) = SedovFuncsO3.L1.l_fun p v ^ (kn - 1) * SedovFuncsO3.L1.l_fun p v ^ 2 := by
@@ -54,7 +54,7 @@ theorem efun02_eq3 (p : SedovFuncsO3.P) (v : ℝ) (B : O3.Bases p v) (kn : ℕ) 
       * psi2 (SedovFuncsO3.L1.l_fun p) (SedovFuncsO3.L1.l_fun_dv p) (SedovFuncsO3.L1.h_fun p) kn v := by
   have he : SedovFuncsO3.L1.efun02 p v = SedovFuncsO3.L1.dlamdv p v * SedovFuncsO3.L1.l_fun p v ^ (p.geometry - 1)
       * SedovFuncsO3.L1.h_fun p v * (8 / ((p.geometry + 2 - p.omega) ^ 2 * p.gamp1)) := by
-    simp only [epv_leaf]
+    simp only [epv_semi_leaf]
   have hpow : SedovFuncsO3.L1.l_fun p v ^ (p.geometry - 1) = SedovFuncsO3.L1.l_fun p v ^ (kn - 1) := by
     have e : p.geometry - 1 = ((kn - 1 : ℕ) : ℝ) := by rw [hgeo, Nat.cast_sub h1]; push_cast; ring
     rw [e, Real.rpow_natCast]
@@ -65,7 +65,7 @@ theorem efun02_eq3 (p : SedovFuncsO3.P) (v : ℝ) (B : O3.Bases p v) (kn : ℕ) 
 /-- the pressure similarity function (omega3) is continuous on the closed branch -/
 theorem h_continuousOn3 {p : SedovFuncsO3.P} (s : Set ℝ) (hs : ∀ v ∈ s, Mass.ClosedBases3 p v) :
     ContinuousOn (SedovFuncsO3.L1.h_fun p) s := by
-  unfold SedovFuncsO3.L1.h_fun
+  rw [(funext (EPV.Bridge.Semi.SedovFuncsO3_L1_h_fun p) : SedovFuncsO3.L1.h_fun p = _)]
   refine (ContinuousOn.mul (ContinuousOn.rpow_const (by fun_prop) ?_) (ContinuousOn.rpow_const (by fun_prop) ?_)).mul
     (Real.continuous_exp.comp_continuousOn (ContinuousOn.div (by fun_prop) (by fun_prop) ?_))
   · intro v hv; exact Or.inl (hs v hv).x1.ne'
@@ -138,7 +138,7 @@ theorem eval_o3_of_branch {p : SedovFuncsO3.P} {γ ω : ℝ} (kn : ℕ) (h1 : 1 
   have hS0 : Mass.StdClosedSigns γ k ω (v0 γ k ω) := (Mass.StdClosed.mk P htype le_rfl Br.hab.le).signs
   have hd2pos := Mass.denom2_pos hS0 P.hk
   have hf' : ∀ v ∈ Ioo (v0 γ k ω) (v2 γ k ω), f (SedovFuncsO3.L1.l_fun p v) = p.a_val * v * SedovFuncsO3.L1.l_fun p v := by
-    intro v hv; rw [hf v hv]; simp only [epv_leaf]
+    intro v hv; rw [hf v hv]; simp only [epv_semi_leaf]
   obtain ⟨⟨I1, E1⟩, ⟨I2, E2⟩⟩ := branch_mono Br hL' f g h hf' hg hh
   obtain ⟨N1, N2⟩ := Br.pos_mono hL' (fun v hv => h_pos3 p v (hB v hv))
   have ha2 := Mass.neg_a2_pos3 hC hγ hd2pos
